@@ -140,6 +140,7 @@ func init() {
 	Properties["C04"] = &PropertySpec{
 		Modules: st,
 		Rules: []Rule{
+			R65(),
 			Only(R10(), `field-store`, `map-update`, `no-in-place`),
 			Only(R54(), `GcsEmu`, `^no-carried`),
 			R11(),
